@@ -11,7 +11,7 @@ From stdpp Require Import pmap.
 From OV Require Import Base.Bytes Base.Cases Base.Tree.
 Import ListNotations.
 
-Definition addr := positive.
+Notation addr := positive (only parsing).
 
 (* idr.Node: ID; Parent, FirstChild, LastChild, PrevSibling, NextSibling; Type; Data;
    FormatSpecific.  NodeType is a Go uint: any value can be passed to CreateNode. *)
@@ -31,7 +31,7 @@ Definition set_ty v (x : node) := mkNode (n_id x) (n_parent x) (n_first x) (n_la
 Definition set_data v (x : node) := mkNode (n_id x) (n_parent x) (n_first x) (n_last x) (n_prev x) (n_next x) (n_ty x) v (n_fs x).
 Definition set_fs v (x : node) := mkNode (n_id x) (n_parent x) (n_first x) (n_last x) (n_prev x) (n_next x) (n_ty x) (n_data x) v.
 
-Definition heapT := Pmap node.
+Notation heapT := (Pmap node) (only parsing).
 
 (* Process state: every Node ever allocated (the harness keeps them all alive, so addresses are
    never reused by the allocator), the content of nodePool, the nodeID counter, and the next
@@ -239,6 +239,21 @@ Fixpoint run (caching : bool) (s : st) (ops : list op) : outcome (st * list (opt
       '(s1, x) <- step caching s o ;;
       '(s2, xs) <- run caching s1 r ;;
       Ok (s2, x :: xs)
+  end.
+
+(* ---- the ID counter under concurrency --------------------------------------------------------- *)
+(* newNodeID is atomic.AddInt64(&nodeID, 1): one indivisible step that bumps the counter and
+   returns the new value.  Several goroutines acquire IDs concurrently; a schedule lists, in the
+   order in which the atomic steps take effect, which goroutine performs the next acquisition. *)
+Definition fetch_add (c : Z) : Z * Z := ((c + 1)%Z, (c + 1)%Z).   (* (new counter, value returned) *)
+
+Fixpoint par_run (c : Z) (sched : list nat) : Z * list (nat * Z) :=
+  match sched with
+  | [] => (c, [])
+  | g :: r =>
+      let '(c1, v) := fetch_add c in
+      let '(c2, seen) := par_run c1 r in
+      (c2, (g, v) :: seen)
   end.
 
 (* ---- the abstract side: ordered forests of addresses ----------------------------------------- *)
@@ -456,27 +471,68 @@ Fixpoint atree_eqb (a b : atree) : bool :=
      | _, _ => false
      end) ks ls.
 
-(* What the harness saw after one operation: the label of the node a create returned, the
-   link-level records (ID omitted) of every labelled node whose record changed, and at check
-   points the forest of live trees as the harness's own shadow structure has it. *)
+(* Compact numeric views used by the generated Cases files: nil = 0, a byte string as the
+   base-256 number with a leading 1 digit, a format-specific value as a tagged number. *)
+Definition N_of_oaddr (o : option addr) : N := match o with None => 0%N | Some p => Npos p end.
+Definition oaddr_of_N (n : N) : option addr := match n with N0 => None | Npos p => Some p end.
+Fixpoint N_of_bytes_aux (acc : N) (b : bytes) : N :=
+  match b with [] => acc | x :: r => N_of_bytes_aux (acc * 256 + Byte.to_N x)%N r end.
+Definition N_of_bytes (b : bytes) : N := N_of_bytes_aux 1%N b.
+Definition N_of_fs (f : fspec) : N :=
+  match f with
+  | FNone => 0%N
+  | FJson j => (4 * j + 1)%N
+  | FXml p u => (4 * (N_of_bytes p * 2199023255552 + N_of_bytes u) + 2)%N
+  end.
+
+(* the observable fields of a node, in the order Parent, FirstChild, LastChild, PrevSibling,
+   NextSibling, Type, Data, FormatSpecific (the ID is not an observable) *)
+Definition fields (x : node) : list N :=
+  [N_of_oaddr (n_parent x); N_of_oaddr (n_first x); N_of_oaddr (n_last x);
+   N_of_oaddr (n_prev x); N_of_oaddr (n_next x); n_ty x; N_of_bytes (n_data x); N_of_fs (n_fs x)].
+
+Definition nd (par first last prev next ty : N) (data : bytes) (fs : fspec) : node :=
+  mkNode 0%Z (oaddr_of_N par) (oaddr_of_N first) (oaddr_of_N last) (oaddr_of_N prev)
+         (oaddr_of_N next) ty data fs.
+Arguments nd (par first last prev next ty)%N data fs.
+
+(* What the harness saw after one operation: the label of the node a create returned (0 for
+   the other operations), every (label, field, new value) that changed at link level among all
+   labelled nodes (for a node seen for the first time: every field in which it differs from a
+   blank node), and at check points
+   the forest of live trees as the harness's own shadow structure has it. *)
 Record obs := mkObs {
-  o_ret : option addr;
-  o_delta : list (addr * node);
+  o_ret : N;
+  o_delta : list (N * N * N);
   o_forest : option forest }.
+Arguments mkObs _%N _%N _.
+Arguments AT _%positive _.
+Arguments FromPool _%positive.
+Arguments OCreate _ _%N _ _.
+Arguments OAdd (_ _)%positive.
+Arguments ORemove _%positive.
 
 Definition all_addrs (s : st) : list addr :=
   map Pos.of_nat (seq 1 (Pos.to_nat (next_addr s) - 1)).
 
-Definition onode_eqb_noid (x y : option node) : bool := opt_eqb node_eqb_noid x y.
+Fixpoint field_changes (a : addr) (i : N) (old new : list N) : list (N * N * N) :=
+  match new, old with
+  | v :: new', w :: old' =>
+      (if N.eqb v w then [] else [(Npos a, i, v)]) ++ field_changes a (N.succ i) old' new'
+  | _, _ => []
+  end.
 
-Definition delta (s s' : st) : list (addr * node) :=
+Definition delta (s s' : st) : list (N * N * N) :=
   flat_map (fun a => match heap s' !! a with
-                     | Some x => if onode_eqb_noid (heap s !! a) (Some x) then [] else [(a, x)]
+                     | Some x => field_changes a 0%N
+                                   (fields (match heap s !! a with Some y => y | None => blank 0%Z end))
+                                   (fields x)
                      | None => []
                      end) (all_addrs s').
 
-Definition delta_eqb (d e : list (addr * node)) : bool :=
-  list_eqb (fun p q => Pos.eqb (fst p) (fst q) && node_eqb_noid (snd p) (snd q)) d e.
+Definition delta_eqb (d e : list (N * N * N)) : bool :=
+  list_eqb (fun p q => N.eqb (fst (fst p)) (fst (fst q)) && N.eqb (snd (fst p)) (snd (fst q))
+                       && N.eqb (snd p) (snd q)) d e.
 
 (* A history on the real idr API.  The operations carry the OBSERVED pool choices. *)
 Record hcase := mkHCase {
@@ -494,7 +550,7 @@ Fixpoint replay (caching : bool) (s : st) (F : forest) (ops : list op) (os : lis
         match step caching s o with
         | Ok (s', ret) =>
             let F' := aeffect s F o in
-            if opt_eqb Pos.eqb ret (o_ret ob)
+            if N.eqb (N_of_oaddr ret) (o_ret ob)
                && delta_eqb (delta s s') (o_delta ob)
                && rep_b s' F'
                && list_eqb (opt_eqb atree_eqb) (map (abs s') (map root F')) (map Some F')
@@ -515,19 +571,21 @@ Definition check_hcase (c : hcase) : bool :=
   end.
 
 (* A tree handed out by a reader: link-level dump of every node reachable from the root, and
-   the Base.Tree tree the harness printed for it.  The model rebuilds the heap, reads the shape
+   the Base.Tree tree the harness printed for it (labels in pre-order).  The model rebuilds the heap, reads the shape
    back, checks every link and the payload. *)
 Record tcase := mkTCase {
-  tc_nodes : list (addr * node);
-  tc_root : addr;
+  tc_nodes : list node;       (* the node labelled k is the k-th element; the root is 1 *)
   tc_tree : tree }.
 
-Definition heap_of (l : list (addr * node)) : heapT :=
-  fold_right (fun p h => <[fst p := snd p]> h) ∅ l.
+Fixpoint heap_of (a : addr) (l : list node) : heapT :=
+  match l with
+  | [] => ∅
+  | x :: r => <[a := x]> (heap_of (Pos.succ a) r)
+  end.
 
 Definition check_tcase (c : tcase) : bool :=
-  let h := heap_of (tc_nodes c) in
-  match read_tree (2 * length (tc_nodes c) + 2) h (tc_root c) with
+  let h := heap_of 1%positive (tc_nodes c) in
+  match read_tree (2 * length (tc_nodes c) + 2) h 1%positive with
   | Some t =>
       tree_ok_b h None None None t
       && nodup_b (addrs t)
